@@ -168,7 +168,7 @@ Proof. vm_compute. split; reflexivity. Qed.
 From NL Require Import Ids.Interp Gen.IdsFuns Ids.TieBase Ids.Tie.
 
 (** the regenerated __init__ bodies produce the model's initial state *)
-Theorem C06_tie_init : exists lt lm, Rsys lt lm (iinit program) init.
+Theorem C06_tie_init : exists lt lm, Rsys lt lm (pview st_init) (iinit program) init.
 Proof. exact tie_init. Qed.
 
 (** thread number and task number of an actor: `self._counter()` of the keeper
@@ -180,7 +180,7 @@ Theorem C06_tie_thread_task_numbers : forall n th ok nl lp st en lt lm s, (36 <=
   exists st',
     eval program (mkCx (th, ok) nl lp) n st en (ECall (EAttr Keeper "_counter"%string))
       = EV st' en (enc_id (snd (composer_call s (th, ok)))) /\
-    Rst lt lm st' (fst (composer_call s (th, ok))) /\ i_out st' = i_out st.
+    Rst lt lm st' (fst (composer_call s (th, ok))) /\ rest_of st' = rest_of st.
 Proof. exact composer_call_tie. Qed.
 
 (** the trace number every plugin attributes its events with: the hook current_trace_no() is a
@@ -195,8 +195,8 @@ Proof. exact eval_current_trace_no. Qed.
     on_start_trace -> OnStartTrace(trace_no, current_thread_no(), current_task_no()), _set.add;
     Emit: current_trace_no(); End: _on_end -> _map[ending] -> OnEndTrace, the entry is KEPT)
     = ONE step of the model, for ALL related states *)
-Theorem C06_tie_step : forall nl lp lt lm y s l, Rsys lt lm y s -> Pre s ->
-  Rsys lt lm (fst (istep program nl lp y l)) (fst (step s l)) /\
+Theorem C06_tie_step : forall nl lp lt lm pv y s l, Rsys lt lm pv y s -> Pre s ->
+  Rsys lt lm pv (fst (istep program nl lp y l)) (fst (step s l)) /\
   snd (istep program nl lp y l) = snd (step s l).
 Proof. exact tie_step. Qed.
 
@@ -204,7 +204,7 @@ Proof. exact tie_step. Qed.
 Theorem C06_tie_simulation : forall nl lp ls, itrace program nl lp ls = trace ls.
 Proof. exact tie_trace. Qed.
 
-Theorem C06_tie_final_state : forall nl lp ls, exists lt lm, Rsys lt lm (ifinal program nl lp ls) (final ls).
+Theorem C06_tie_final_state : forall nl lp ls, exists lt lm, Rsys lt lm (pview st_init) (ifinal program nl lp ls) (final ls).
 Proof. exact tie_final. Qed.
 
 (** and the C06 invariants hold of the regenerated code *)
@@ -253,6 +253,60 @@ Theorem C06_tie_reset : forall n cx st en lt lm s, (8 <= n)%nat -> Rst lt lm st 
     Rst lt' lm st' (w_tkctr (w_thctr s 1) (fun _ => 1)).
 Proof. exact tie_reset. Qed.
 
+
+(** ---- the USE of the trace number: one debugger per trace.
+    LocalTraceFunc.local_trace_func / init (local_.py), PdbInstanceFactory.init / create_local_trace_func and the
+    bodies of the two closures `Factory(hook)._factory` (local_.py, pdb_/factory.py) are TRANSLATED and interpreted;
+    the shape of the two `Factory` functions around `_factory` and three facts about WithContext are PINNED by the
+    translator (pin + interpretation of the translated bodies).  [pv] is the debugger side of the interpreter's state
+    (LocalTraceFunc._map, the number of objects created, ..); [PInv pv]: every entry of _map is a WithContext around
+    the trace_dispatch of its own CustomizedPdb with its own StdInOut, and no two entries share either. *)
+
+(** a call of local_trace_func in actor a reaches the Pdb stored under a's current trace number (a new
+    StdInOut + CustomizedPdb pair is created and stored if there is none); no other entry changes *)
+Theorem C06_tie_dispatch : forall nl lp lt lm pv y s a x, Rsys lt lm pv y s -> PInv pv ->
+  exists pv',
+    Rsys lt lm pv' (fst (idispatch program nl lp y a x)) s /\ PInv pv' /\
+    snd (idispatch program nl lp y a x) = pdb_at pv' (m_map s a) /\ snd (idispatch program nl lp y a x) <> None /\
+    (forall o, o <> m_map s a -> pv_map pv' (enc_oz o) = pv_map pv (enc_oz o)) /\
+    (pv_map pv (enc_oz (m_map s a)) <> None -> pv' = pv).
+Proof. exact tie_dispatch. Qed.
+
+(** two different started actors are never served by the same Pdb nor by the same StdInOut *)
+Theorem C06_tie_dispatch_separates : forall nl lp lt lm pv y s tr a b ta tb x x',
+  Rsys lt lm pv y s -> PInv pv -> Inv tr s ->
+  m_map s a = Some ta -> m_map s b = Some tb -> a <> b ->
+  exists ls lpp ls' lpp',
+    snd (idispatch program nl lp y a x) = Some (pdb_obj ls lpp) /\
+    snd (idispatch program nl lp (fst (idispatch program nl lp y a x)) b x') = Some (pdb_obj ls' lpp') /\
+    lpp <> lpp' /\ ls <> ls'.
+Proof. exact tie_dispatch_separates. Qed.
+
+(** the same actor is served by the same Pdb again, whatever numbering labels and calls of local_trace_func of
+    any actors happen in between *)
+Theorem C06_tie_dispatch_same_pdb : forall nl lp lt lm pv y s tr a t x x' xls,
+  Rsys lt lm pv y s -> PInv pv -> Inv tr s -> m_map s a = Some t ->
+  snd (idispatch program nl lp (xexec nl lp (fst (idispatch program nl lp y a x)) xls) a x') =
+  snd (idispatch program nl lp y a x).
+Proof. exact tie_dispatch_same_pdb. Qed.
+
+(** the hypotheses of the three theorems hold in every state reachable by numbering labels interleaved with calls
+    of local_trace_func, and the interleaved calls do not disturb the numbering *)
+Theorem C06_tie_xrun : forall nl lp xls,
+  exists lt lm pv tr, Rsys lt lm pv (xexec nl lp (iinit program) xls) (final (xproj xls)) /\ PInv pv /\
+                      Inv tr (final (xproj xls)) /\ xouts nl lp (iinit program) xls = outs (xproj xls).
+Proof. exact tie_xrun. Qed.
+
+(** non-vacuity: thread 1 and its task 7 get different Pdb objects (1 and 4) with different StdInOut objects
+    (0 and 3); thread 1 gets Pdb 1 again *)
+Example C06_tie_example_dispatch :
+  let y1 := ifinal program (fun _ => false) (fun _ _ => 0) [Filtered (1, None); Mapped (1, None); Filtered (1, Some 7); Mapped (1, Some 7)] in
+  let d1 := idispatch program (fun _ => false) (fun _ _ => 0) y1 (1, None) 5 in
+  let d2 := idispatch program (fun _ => false) (fun _ _ => 0) (fst d1) (1, Some 7) 6 in
+  let d3 := idispatch program (fun _ => false) (fun _ _ => 0) (fst d2) (1, None) 8 in
+  (snd d1, snd d2, snd d3) = (Some (pdb_obj 0 1), Some (pdb_obj 3 4), Some (pdb_obj 0 1)).
+Proof. vm_compute. reflexivity. Qed.
+
 (** non-vacuity: the regenerated code, interpreted, on the run of C06_example_nonvacuous (current_task()
     raising RuntimeError in the threads with an even number), plus an End of an unknown actor and a
     Mapped without Filtered *)
@@ -288,3 +342,7 @@ Print Assumptions C06_tie_attribution.
 Print Assumptions C06_tie_end_attribution.
 Print Assumptions C06_tie_has_id.
 Print Assumptions C06_tie_reset.
+Print Assumptions C06_tie_dispatch.
+Print Assumptions C06_tie_dispatch_separates.
+Print Assumptions C06_tie_dispatch_same_pdb.
+Print Assumptions C06_tie_xrun.
